@@ -28,6 +28,7 @@ type Unit struct {
 }
 
 type Finding struct {
+	Extra   json.RawMessage `json:"extra,omitempty"`
 	Prop    string `json:"prop"`
 	Msg     string `json:"msg"`
 	Unit    Unit   `json:"unit"` // history truncated to the failing step
@@ -36,6 +37,7 @@ type Finding struct {
 }
 
 type WorkerOut struct {
+	Counters    map[string]int
 	Units       int
 	Transitions int
 	States      int // distinct (options, history prefix) nodes visited
@@ -59,6 +61,8 @@ func unitKey(u Unit, upto int) string {
 // through many inputs is reported once per class.
 var hexRe = regexp.MustCompile(`0x[0-9a-f]+|\b[0-9a-f]{16,}\b`)
 
+var numRe = regexp.MustCompile(`\d+`)
+
 func msgClass(m string) string {
 	m = firstLine(m)
 	if i := strings.Index(m, ": "); i > 0 && i < 80 {
@@ -68,6 +72,9 @@ func msgClass(m string) string {
 		m = m[:i]
 	}
 	m = hexRe.ReplaceAllString(m, "#")
+	if strings.Contains(m, "limit") {
+		m = numRe.ReplaceAllString(m, "#")
+	}
 	if len(m) > 160 {
 		m = m[:160]
 	}
@@ -164,7 +171,7 @@ type Artefact struct {
 	Property string `json:"property"`
 	Message  string `json:"message"`
 	Unit     Unit   `json:"unit"`
-	Extra    any    `json:"extra,omitempty"`
+	Extra    json.RawMessage `json:"extra,omitempty"`
 }
 
 func main() {
@@ -178,12 +185,22 @@ func main() {
 	replay := flag.String("replay", "", "")
 	known := flag.String("known", "", "")
 	jobs := flag.Int("j", 16, "")
+	racepass := flag.Bool("racepass", false, "C16: free-running pass (build with -race)")
 	flag.Parse()
+	if *racepass {
+		os.Exit(racePass(*tier))
+	}
 	if *replay != "" {
 		os.Exit(doReplay(*replay))
 	}
-	if special, ok := specialEngines[*prop]; ok && !*worker {
-		os.Exit(special(*prop, *tier, *evidence, *replayDir, *known))
+	if sw, ok := specialWorkers[*prop]; ok {
+		if *worker {
+			out := sw(*tier, *shard, *nshard)
+			b, _ := json.Marshal(out)
+			fmt.Println("RESULT " + string(b))
+			return
+		}
+		os.Exit(parent(*prop, *tier, *jobs, *evidence, *replayDir, *known, *jobs))
 	}
 	plan, ok := plans[*prop]
 	if !ok {
@@ -193,11 +210,17 @@ func main() {
 	units := plan(*tier)
 	if *worker {
 		out := runUnits(units, *shard, *nshard)
+		if *prop == "C13" {
+			if out.Counters == nil {
+				out.Counters = map[string]int{}
+			}
+			dictWorkerPart(*tier, *shard, *nshard, out)
+		}
 		b, _ := json.Marshal(out)
 		fmt.Println("RESULT " + string(b))
 		return
 	}
-	os.Exit(parent(*prop, *tier, units, *evidence, *replayDir, *known, *jobs))
+	os.Exit(parent(*prop, *tier, len(units), *evidence, *replayDir, *known, *jobs))
 }
 
 func doReplay(path string) int {
@@ -230,12 +253,12 @@ func doReplay(path string) int {
 	return 0
 }
 
-func parent(prop, tier string, units []Unit, evidence, replayDir, knownPath string, jobs int) int {
+func parent(prop, tier string, nunits int, evidence, replayDir, knownPath string, jobs int) int {
 	start := time.Now()
 	self, _ := os.Executable()
 	n := jobs
-	if len(units) < n {
-		n = len(units)
+	if nunits < n {
+		n = nunits
 	}
 	if n == 0 {
 		fmt.Fprintln(os.Stderr, "HARNESS-ERROR: empty plan")
@@ -278,7 +301,11 @@ func parent(prop, tier string, units []Unit, evidence, replayDir, knownPath stri
 	if fail {
 		return 2
 	}
-	return report(prop, tier, outs, evidence, replayDir, knownPath, start, nil)
+	var extra map[string]any
+	if f, ok := extraCoverage[prop]; ok {
+		extra = f(outs)
+	}
+	return report(prop, tier, outs, evidence, replayDir, knownPath, start, extra)
 }
 
 func report(prop, tier string, outs []*WorkerOut, evidence, replayDir, knownPath string, start time.Time, extraCov map[string]any) int {
@@ -345,7 +372,11 @@ func report(prop, tier string, outs []*WorkerOut, evidence, replayDir, knownPath
 		}
 		h := sha256.Sum256([]byte(full))
 		path := filepath.Join(replayDir, fmt.Sprintf("%s-%s.json", prop, hex.EncodeToString(h[:6])))
-		b, _ := json.MarshalIndent(Artefact{Engine: "streammc", Property: prop, Message: f.Msg, Unit: f.Unit}, "", " ")
+		eng := "streammc"
+		if _, ok := specialWorkers[prop]; ok {
+			eng = prop
+		}
+		b, _ := json.MarshalIndent(Artefact{Engine: eng, Property: prop, Message: f.Msg, Unit: f.Unit, Extra: f.Extra}, "", " ")
 		os.WriteFile(path, b, 0o644)
 		abs, _ := filepath.Abs(path)
 		violLines = append(violLines, fmt.Sprintf("VIOLATION property=%s replay=%s", prop, abs))
@@ -410,5 +441,6 @@ func max1(n int) int {
 	return n
 }
 
-var specialEngines = map[string]func(prop, tier, evidence, replayDir, known string) int{}
+var specialWorkers = map[string]func(tier string, shard, nshard int) *WorkerOut{}
 var specialReplays = map[string]func(a Artefact, path string) int{}
+var extraCoverage = map[string]func(outs []*WorkerOut) map[string]any{}
